@@ -59,6 +59,7 @@ type Case struct {
 	Idx   int    `json:"idx"`   // mount / rlimit index for indexed steps
 	Cb    string `json:"cb"`    // "ok" | "err" (only meaningful with opt.sync)
 	Crash string `json:"crash"` // "" | "exit" | "kill": a helper launcher process dies inside the callback
+	Tbl   string `json:"tbl"`   // "" = descriptor table of three fresh pipes | "low": table whose later slots hold LOWER numbers
 }
 
 // Self is the probe's self-report (probes/launch.c).
@@ -250,6 +251,8 @@ type Obs struct {
 	PDomain string            `json:"pdomain"`
 	Strace  bool              `json:"strace"`
 	Crash   string            `json:"crash"`
+	Tbl     string            `json:"tbl"`
+	Sock    string            `json:"sock"`   // low-table cases: first descriptor number that was free when Start was called
 	Orphan  string            `json:"orphan"` // launcher death cases: "gone" | "alive:<state>:<exe>" after the grace period
 	Cb      CbObs             `json:"cbobs"`
 	Marker  bool              `json:"marker"` // marker file exists after everything ended
@@ -337,6 +340,7 @@ type plan struct {
 	cbErr      bool
 	cbDelay    time.Duration
 	extraFiles []uintptr
+	lowTable   bool          // Files = a table whose later slots hold lower numbers, sized so that the temporary copies reach the status socket
 	cbHook     func(pid int) // runs first thing inside the callback
 	hold       bool
 	setupErr   string
@@ -542,7 +546,7 @@ func launchOne(e *Env, p *plan) Obs {
 
 func launchLocked(e *Env, p *plan) (ob Obs) {
 	c := p.c
-	ob = Obs{Ev: "Observe", ID: c.ID, Opt: c.Opt, Fail: c.Fail, Idx: c.Idx, CbRes: c.Cb, Req: p.req, Self: emptySelf(),
+	ob = Obs{Ev: "Observe", ID: c.ID, Opt: c.Opt, Fail: c.Fail, Idx: c.Idx, CbRes: c.Cb, Tbl: c.Tbl, Req: p.req, Self: emptySelf(),
 		Out: Outside{NS: nsMap(func(string) string { return "" })}, Exit: "none", Wait: "", Stops: []string{}}
 	if ob.Req.Groups == nil {
 		ob.Req.Groups = []int{}
@@ -588,6 +592,7 @@ func launchLocked(e *Env, p *plan) (ob Obs) {
 	if r.Files == nil {
 		r.Files = append([]uintptr{uintptr(inP[0]), uintptr(outP[1]), 2}, p.extraFiles...)
 	}
+
 	if c.Opt.Sync {
 		r.SyncFunc = func(pid int) error {
 			strMarker(e, fmt.Sprintf("@@cb-%d", c.ID))
@@ -642,6 +647,27 @@ func launchLocked(e *Env, p *plan) (ob Obs) {
 	}
 	t0 := time.Now()
 	strMarker(e, fmt.Sprintf("@@case-%d", c.ID))
+	if p.lowTable {
+		// Start's socketpair takes the two lowest free numbers (a, b); the child's end is b.  Build a table of
+		// n = b-3 slots whose slots 1.. hold numbers lower than their index: pass 1 of the child's descriptor
+		// set-up then makes n-1 temporary copies at n+1 .. 2n-1, a range that contains b.
+		fa, e1 := unix.Open("/dev/null", unix.O_RDONLY|unix.O_CLOEXEC, 0)
+		fb, e2 := unix.Open("/dev/null", unix.O_RDONLY|unix.O_CLOEXEC, 0)
+		if e1 != nil || e2 != nil || fb < 7 {
+			ob.Setup = "low table: could not find the socketpair's numbers"
+			return
+		}
+		unix.Close(fa)
+		unix.Close(fb)
+		n := fb - 3
+		tbl := make([]uintptr, n)
+		for i := range tbl {
+			tbl[i] = uintptr((i + 2) % 3) // 2 0 1 0 1 2 0 1 2 ... : every slot from 1 on holds a number below its index
+		}
+		tbl[1], tbl[2] = 0, 1
+		r.Files = tbl
+		ob.Sock = strconv.Itoa(fb)
+	}
 	wdDone := make(chan struct{})
 	wdRes := make(chan string, 1)
 	go hangWatch(unix.Gettid(), e.Strace, wdDone, wdRes)
